@@ -420,11 +420,81 @@ def r2_probe_and_budget(ctx):
         cyc = [sorted(comp) for i, comp in enumerate(comps) if len(comp) > 1]
         detail = "worst unprobed extension below %s: %d bytes over the condensed call graph (%d of %d bodies matched to code-generator frame sizes; unguarded cycles %s counted once - their depth is reported by R1)" % (start, ext, matched, len(prog.fns), [len(x) for x in cyc])
         ctx.note(detail)
-    need = budget + (ext if ext is not None else 256 * 1024) + EXTERNAL_ALLOWANCE
-    if need <= THREAD_STACK:
-        ctx.ok("budget|fits-thread-stack", "src/runtime.rs", "STACK_BUDGET %d + extension %s + external allowance %d = %d <= %d" % (budget, ext if ext is not None else "256 KiB (default)", EXTERNAL_ALLOWANCE, need, THREAD_STACK))
+    # The recursions over the nesting depth of run-time data (named exceptions of R1: clone_into, promote, detach, Display,
+    # join) are not probed.  They are bounded by what a script can build: wrapping a nest of depth k once more copies it into
+    # the persistent arena (>= k * size_of::<Value>() bytes that are never reclaimed), so depth d costs >= V * d^2 / 2 bytes of
+    # an arena of C bytes: d <= sqrt(2C / V).  That many levels of the fattest of those frames must fit above the budget too.
+    import math
+    cap = None
+    cc = (ctx.bin.consts.get("SCRATCH_ARENA_CAPACITY") if ctx.bin is not None else None)
+    if isinstance(cc, dict) and cc.get("bytes"):
+        cap = int.from_bytes(bytes.fromhex(cc["bytes"]), "little")
+    vsize = (prog.adts.get("runtime::Value") or {}).get("size")
+    if not cap or not vsize:
+        ctx.bad("budget|data-depth-inputs", "src/bin/naija/main.rs", "cannot evaluate the arena capacity (%s) / the size of Value (%s) that bound the depth of run-time data" % (cap, vsize))
+        return
+    d_max = math.isqrt(2 * cap // vsize)
+    STD_PER_LEVEL = 128
+    if sizes is not None:
+        per_level = max([sizes.get(frames._canon(f), UNKNOWN_FRAME) for f in DATA_DEPTH] + [0]) + STD_PER_LEVEL
+        how = "largest measured frame of the data-depth recursions + %d" % STD_PER_LEVEL
     else:
-        ctx.bad("budget|exceeds-thread-stack", "src/runtime.rs", "STACK_BUDGET (%d) plus what can be stacked after the last successful probe (%s) plus %d for std frames is %d bytes, more than the %d-byte main-thread stack: the guard page is hit before the probe reports 'Call stack don full'" % (budget, ext if ext is not None else "256 KiB default", EXTERNAL_ALLOWANCE, need, THREAD_STACK))
+        per_level = 512 + STD_PER_LEVEL
+        how = "default frame 512 + %d" % STD_PER_LEVEL
+    data_allow = d_max * per_level
+    ctx.note("data-depth bound: arena %d bytes, size_of(Value) %d -> at most %d nesting levels; %d bytes per level (%s) -> %d bytes" % (cap, vsize, d_max, per_level, how, data_allow))
+    # no body keeps an array of 64 KiB or more in a local (visible in the types of MIR locals, so also without frame sizes)
+    nbig = 0
+    for progx, tag in ((prog, "lib"), (ctx.bin, "bin")):
+        if progx is None:
+            continue
+        for fidx, gx in progx.fns.items():
+            if not gx.file.startswith("src/"):
+                continue
+            for lx in gx.locals:
+                mm = re.match(r"^\[(.+); (\d+)\]$", lx["ty"].strip())
+                if mm and int(mm.group(2)) >= MAX_SINGLE_FRAME:
+                    nbig += 1
+                    ctx.bad("stack-array|%s|%s" % (parent_fn(fidx), lx["ty"][:24]), gx.where(), "%s keeps a `%s` on the native stack: a frame of that size %s" % (parent_fn(fidx).split("::")[-1], lx["ty"], "sits above the stack anchor while the program runs, so the budget measured from the anchor reaches past the end of the thread's stack" if tag == "bin" else "between two probes eats the margin above the budget"))
+    if not nbig:
+        ctx.ok("stack-array|none", "src", "no local array of %d bytes or more in any body of the library or the CLI" % MAX_SINGLE_FRAME)
+    # what the front end keeps on the stack *above* the anchor while the program runs: the frames on the way from main to
+    # the call of Runtime::run* (a big buffer there moves the anchor down by its size; the budget is measured from the anchor)
+    above = 64 * 1024
+    above_how = "64 KiB (default)"
+    if sizes is not None and ctx.bin is not None:
+        bcg = ctx.bin.callgraph()
+        badj = {}
+        for src, dd in bcg.items():
+            for cal in dd:
+                if parent_fn(cal) in {parent_fn(k) for k in ctx.bin.fns}:
+                    badj.setdefault(parent_fn(src), set()).add(parent_fn(cal))
+        targets = {parent_fn(k) for k, g in ctx.bin.fns.items() for c in g.calls() if (c.callee or "").startswith("naijascript::runtime::Runtime::run")}
+
+        def bframe(node):
+            own = [k for k in ctx.bin.fns if parent_fn(k) == node]
+            return max([sizes.get("bin:" + frames._canon(k), UNKNOWN_FRAME) for k in own] + [0])
+        best = {}
+
+        def walk(node, acc, seen):
+            acc += bframe(node)
+            if node in targets:
+                best[node] = max(best.get(node, 0), acc)
+            for nx in badj.get(node, ()):
+                if nx not in seen and len(seen) < 12:
+                    walk(nx, acc, seen | {nx})
+        if "main" in {parent_fn(k) for k in ctx.bin.fns} and targets:
+            walk("main", 0, {"main"})
+        if best:
+            above = max(best.values())
+            above_how = "measured main -> %s" % sorted(best, key=best.get)[-1]
+            ctx.note("frames above the anchor: %d bytes (%s)" % (above, above_how))
+    need = budget + (ext if ext is not None else 256 * 1024) + data_allow + above + EXTERNAL_ALLOWANCE
+    parts = "STACK_BUDGET %d + frames above the anchor %d (%s) + unprobed extension %s + data-depth recursion %d (%d levels x %d) + external allowance %d" % (budget, above, above_how, ext if ext is not None else "256 KiB (default)", data_allow, d_max, per_level, EXTERNAL_ALLOWANCE)
+    if need <= THREAD_STACK:
+        ctx.ok("budget|fits-thread-stack", "src/runtime.rs", "%s = %d <= %d" % (parts, need, THREAD_STACK))
+    else:
+        ctx.bad("budget|exceeds-thread-stack", "src/runtime.rs", "%s = %d bytes, more than the %d-byte main-thread stack: recursion that is not probed (formatting, copying or relocating a deeply nested array; whatever runs after the last successful probe) hits the guard page before check_stack can report 'Call stack don full'" % (parts, need, THREAD_STACK))
 
 
 _FRAMES = {}
@@ -453,6 +523,9 @@ EXPLANATION = (
     "path in the condensed call graph below a probing body, and no single frame may exceed 64 KiB. Decides: presence of a "
     "guard on every recursive cycle, soundness of the probe's arithmetic and constant. Does not decide the native depth at "
     "which a known unguarded cycle overflows, release-profile frames (LTO: fixed at link time), nor std-internal frames."
+)
+EXPLANATION += (
+    " R2 also: the named data-depth recursions are bounded quantitatively - at most sqrt(2 * SCRATCH_ARENA_CAPACITY / size_of(Value)) nesting levels (evaluated constant, compiler layout) times the fattest of their frames - and the frames the CLI keeps above the stack anchor are added (thorough: from the linked executable's .stack_sizes); no local array of 64 KiB or more in any body."
 )
 ASSUMPTIONS = [
     "recursion over run-time data depth (clone_into, promote, Display, join) is bounded by arena exhaustion - named exceptions",
